@@ -34,21 +34,21 @@ def P_(groups, bounded=(), harness=None, trusted=SCHED_TRUSTED, assumptions=SCHE
 
 
 PROPS = {
-    "C01": P_(["values", "dagproto"], ["programs", "programs_flat", "reference_matrix"], claim="other",
+    "C01": P_(["values", "dagproto", "nodeexec"], ["programs", "programs_flat", "reference_matrix"], claim="other",
               explanation="Mixed: the value-level functions between the recorded node table and the returned value are proved against their contracts; that the recorded table is the meaning of the describing function (tracing) is only covered by the bounded program-level stand-in."),
-    "C02": P_(["scheduler", "values"], ["reference_matrix"], dict(SW)),
+    "C02": P_(["scheduler", "values", "nodeexec"], ["reference_matrix"], dict(SW)),
     "C03": P_(["scheduler", "values", "digraph", "dagproto"], ["programs_flat", "selection"], dict(SW, active=True)),
     "C04": P_(["scheduler", "values", "dagproto"], ["config"], dict(SW)),
-    "C05": P_(["scheduler"], ["config"], dict(SW)),
+    "C05": P_(["scheduler", "nodeexec"], ["config"], dict(SW)),
     "C06": P_(["scheduler", "digraph", "dagproto"], ["config"], dict(SW)),
-    "C07": P_(["digraph", "dagproto"], ["priority_table", "config"]),
+    "C07": P_(["digraph", "dagproto", "nodeexec"], ["priority_table", "config"]),
     "C08": P_(["scheduler", "dagproto"], ["config"], dict(SW)),
     "C09": P_(["scheduler", "values"], [], dict(SW, fail=True, active=True)),
     "C10": P_(["scheduler", "values"], ["programs", "reference_matrix"], dict(SW, active=True)),
     "C11": P_(["dagproto", "digraph", "values"], ["setup_histories", "build_validation"]),
     "C12": P_(["digraph", "dagproto", "values"], ["selection"]),
     "C13": P_(["digraph", "dagproto"], ["selection_debug", "build_validation"]),
-    "C14": P_(["scheduler", "values", "dagproto"], ["profile"], dict(SW, fail=True)),
+    "C14": P_(["scheduler", "values", "dagproto", "nodeexec"], ["profile"], dict(SW, fail=True)),
     "C15": P_(["dagproto", "values", "digraph"], ["no_leak", "selection", "compose"]),
     "C16": P_(["threads", "dagproto", "values"], ["threads"], claim="other",
               explanation="Mixed: the ownership guards (who may take the description branch, lock discipline of threadsafe_make_dag, frames of the run path) are proved; LazyExecNode.__call__ and real interleavings are covered by the bounded thread stand-in only."),
